@@ -83,9 +83,18 @@ type c19Status struct {
 	*server.PlayerList
 }
 
-type c19Checker struct{ refuse bool }
+type c19Checker struct {
+	refuse bool
+	seen   chan [2]string // (name, uuid) as the login checker was asked
+}
 
-func (c c19Checker) CheckPlayer(string, uuid.UUID, int32) (bool, chat.Message) {
+func (c c19Checker) CheckPlayer(name string, id uuid.UUID, _ int32) (bool, chat.Message) {
+	if c.seen != nil {
+		select {
+		case c.seen <- [2]string{name, id.String()}:
+		default:
+		}
+	}
 	return !c.refuse, chat.Text("refused by the harness")
 }
 
@@ -232,11 +241,12 @@ func c19Check(c C19Case) *pbt.Violation {
 	defer stop()
 
 	game := &c19Game{c: c, done: make(chan c19Accepted, 1)}
+	checkerSaw := make(chan [2]string, 4)
 	pl := server.NewPlayerList(20)
 	motd := chat.Text("verif §amotd")
 	srv := &server.Server{
 		ListPingHandler: c19Status{PingInfo: server.NewPingInfo("verif-server", 767, motd, nil), PlayerList: pl},
-		LoginHandler:    &server.MojangLoginHandler{OnlineMode: false, Threshold: c.Threshold, LoginChecker: c19Checker{refuse: c.Refuse}},
+		LoginHandler:    &server.MojangLoginHandler{OnlineMode: false, Threshold: c.Threshold, LoginChecker: c19Checker{refuse: c.Refuse, seen: checkerSaw}},
 		ConfigHandler:   c19Config{},
 		GamePlay:        game,
 	}
@@ -354,6 +364,18 @@ func c19Check(c C19Case) *pbt.Violation {
 	}
 
 	err := client.JoinServerWithOptions(addr, opts)
+	// what the login checker was asked about is the player that joins: the name and the offline UUID
+	select {
+	case saw := <-checkerSaw:
+		if want := uuid.UUID(java.NameUUID([]byte("OfflinePlayer:" + c.Name))).String(); saw[0] != c.Name || saw[1] != want {
+			if err == nil {
+				client.Close()
+			}
+			return pbt.V("c19.join.identity.checker", "both sides agree on the player's name and on the UUID being the offline UUID (the login checker included)",
+				"the LoginChecker was asked about (%q, %s); the player is (%q, %s) (configured account uuid %q)", saw[0], saw[1], c.Name, want, c.ClaimUUID)
+		}
+	default:
+	}
 	if c.Refuse {
 		if err == nil {
 			client.Close()
